@@ -251,7 +251,12 @@ Inductive case :=
    ntn = true: block type + header bytes; false: block type + block bytes *)
 | CClient (ntn : bool) (w : bytes) (back : option (N * bytes))
 (* NtN, block type only (the header bytes were compared by the harness) *)
-| CClientType (w : bytes) (t : option N).
+| CClientType (w : bytes) (t : option N)
+(* history: message w was decoded, further messages were decoded after it,
+   and only then its accessors were read: block type + block bytes (ntn =
+   false) resp. era, byron type + header bytes (ntn = true); the bytes read
+   are given as the range [off, off+len) of w where the harness found them *)
+| CLate (ntn : bool) (w : bytes) (a b off len : N).
 
 Definition ntc_view (r : option (N * bytes * item)) : option (N * bytes) :=
   match r with Some (t, b, _) => Some (t, b) | None => None end.
@@ -280,6 +285,10 @@ Definition check_case (header_to_block : list (N * N)) (c : case) : bool :=
   | CClient true w back =>
       opt_eqb nb_eqb (match client_ntn header_to_block w with Some (t, h, _) => Some (t, h) | None => None end) back
   | CClient false w back => opt_eqb nb_eqb (ntc_view (unwrap_ntc w)) back
+  | CLate false w a _ off len =>
+      opt_eqb nb_eqb (ntc_view (unwrap_ntc w)) (Some (a, slice (N.to_nat off) (N.to_nat len) w))
+  | CLate true w a b off len =>
+      opt_eqb nnb_eqb (ntn_view (unwrap_ntn w)) (Some (a, b, slice (N.to_nat off) (N.to_nat len) w))
   | CClientType w t =>
       opt_eqb N.eqb (match client_ntn header_to_block w with Some (t', _, _) => Some t' | None => None end) t
   end.
